@@ -137,7 +137,7 @@ pub fn check(case: &C12Case, st: &mut Stats) -> Verdict {
 
     // order leak, judged statistically over repeated issuance of the same claims
     if case.repeat > 0 {
-        let eligible_obj = results[0].1.sd_lists.iter().any(|l| l.entries.iter().filter(|e| e.1.is_some()).count() >= 2);
+        let eligible_obj = true; // lists are filtered individually below; decoy recurrence is judged for every shape
         if eligible_obj {
             st.label("order_leak_evaluated");
             let mut eligible = 0u64;
@@ -147,9 +147,13 @@ pub fn check(case: &C12Case, st: &mut Stats) -> Verdict {
             let mut decoys_last = 0u64;
             let mut decoys_first = 0u64;
             let mut example = String::new();
+            // one issuer instance for all repetitions; a decoy digest that recurs in a later
+            // credential is recognisable as a decoy (real digests are re-salted every time)
+            let mut rep_issuer = sut::new_issuer(base.alg, crate::keys::KeyId::Primary);
+            let mut all_decoys: HashSet<String> = HashSet::new();
             for _ in 0..case.repeat {
                 st.sub(1);
-                let text = match sut::issue(&on) {
+                let text = match sut::issue_with(&mut rep_issuer, &on) {
                     Out::Ok(t) => t,
                     _ => continue,
                 };
@@ -162,6 +166,14 @@ pub fn check(case: &C12Case, st: &mut Stats) -> Verdict {
                     Err(_) => continue,
                 };
                 let r = reconstruct(&jwt.payload, &parts.disclosures);
+                for d in &r.unmatched_sd {
+                    if !all_decoys.insert(d.clone()) {
+                        return Err(Failure::new(
+                            "decoy:repeats-across-issuances",
+                            format!("decoy digest {} appears in two credentials issued by the same issuer instance over the same claims: whatever recurs is recognisable as a decoy", d),
+                        ));
+                    }
+                }
                 for l in &r.sd_lists {
                     let real: Vec<&String> = l.entries.iter().filter_map(|e| e.2.as_ref()).collect();
                     if real.len() < 2 {
